@@ -133,3 +133,51 @@ fn c14m_pipeline_witness() {
     let _ = LegacyColorDyeTableRow::read_le(&mut c).unwrap();
     assert!(false);
 }
+
+// =================================================================================================
+// C14: Material::from_existing on a generated minimal material without colour / dye tables:
+// 1 texture path, shader package name, 1 shader key, 1 constant of two floats, 1 sampler.
+// Counts, string table and the constant's offset / size are concrete; key, constant id, float
+// bit patterns and the sampler's flag / index bytes are symbolic.
+// =================================================================================================
+const MT_TOTAL: usize = 16 + 4 + 16 + 4 + 12 + 8 + 8 + 12 + 8; // 88
+#[kani::proof]
+#[kani::unwind(20)]
+#[kani::stub(core::str::validations::run_utf8_validation, crate::verif_support::refs::ascii_utf8_validation)]
+fn c14_material_from_existing_minimal() {
+    let mut b: [u8; MT_TOTAL] = kani::any();
+    let put16 = |b: &mut [u8; MT_TOTAL], o: usize, v: u16| { let x = v.to_le_bytes(); b[o] = x[0]; b[o + 1] = x[1]; };
+    let put32 = |b: &mut [u8; MT_TOTAL], o: usize, v: u32| { let x = v.to_le_bytes(); b[o] = x[0]; b[o + 1] = x[1]; b[o + 2] = x[2]; b[o + 3] = x[3]; };
+    let le32 = |b: &[u8; MT_TOTAL], o: usize| u32::from_le_bytes([b[o], b[o + 1], b[o + 2], b[o + 3]]);
+    // file header: version, file size, data set size (symbolic), string table size, package name offset, counts
+    put16(&mut b, 8, 16); put16(&mut b, 10, 8);
+    b[12] = 1; b[13] = 0; b[14] = 0; b[15] = 4;               // 1 texture, no uv / colour sets, 4 bytes of additional data
+    // 16: texture offset table (1 entry, symbolic); 20: strings
+    let strings = b"t/a.tex\0sh.shpk\0";
+    let mut i = 0;
+    while i < 16 { b[20 + i] = strings[i]; i += 1; }
+    put32(&mut b, 36, 0);                                      // table flags: no colour table, no dye table
+    // 40: material header: value list size 8, 1 key, 1 constant, 1 sampler, flags (symbolic)
+    put16(&mut b, 40, 8); put16(&mut b, 42, 1); put16(&mut b, 44, 1); put16(&mut b, 46, 1);
+    // 52: shader key (category, value) symbolic; 60: constant (id symbolic, offset 0, size 8)
+    put16(&mut b, 64, 0); put16(&mut b, 66, 8);
+    // 68: sampler: usage tag (concrete: Sampler0), flags, index, 3 unknown bytes (symbolic)
+    put32(&mut b, 68, 0x213CB439);
+    // 80: two floats (symbolic)
+    let m = Material::from_existing(&b).unwrap();
+    assert!(m.shader_package_name.as_bytes() == b"sh.shpk");
+    assert_eq!(m.texture_paths.len(), 1);
+    assert!(m.texture_paths[0].as_bytes() == b"t/a.tex");
+    assert_eq!(m.shader_keys.len(), 1);
+    assert_eq!((m.shader_keys[0].category, m.shader_keys[0].value), (le32(&b, 52), le32(&b, 56)));
+    assert_eq!(m.constants.len(), 1);
+    assert_eq!((m.constants[0].id, m.constants[0].num_values), (le32(&b, 60), 2));
+    assert_eq!((m.constants[0].values[0].to_bits(), m.constants[0].values[1].to_bits()), (le32(&b, 80), le32(&b, 84)));
+    assert_eq!((m.constants[0].values[2].to_bits(), m.constants[0].values[3].to_bits()), (0, 0));
+    assert_eq!(m.samplers.len(), 1);
+    assert!(matches!(m.samplers[0].texture_usage, TextureUsage::Sampler0));
+    assert_eq!((m.samplers[0].flags, m.samplers[0].texture_index, m.samplers[0].unknown3), (le32(&b, 72), b[76], b[79]));
+    assert!(m.color_table.is_none() && m.color_dye_table.is_none());
+    kani::cover!(true);
+    core::mem::forget(m);
+}
